@@ -39,6 +39,8 @@ def judge(ctx, items, res, part, nontrivial):
         if r is None or "crash" in r or "exc" in r:
             ctx.violation(dict(ident, kind="crash-or-exception", exc=(r or {}).get("exc")), {"item": it, "result": r})
         elif not r["ok"]:
+            if r.get("signature"):
+                ident = dict(ident, signature=r["signature"])
             ctx.violation(dict(ident, kind="mismatch", what=[f.get("what") for f in r["fails"]]), {"item": it, "result": r})
 
 
